@@ -80,6 +80,19 @@ func (g *Gen) frameEnv(f *Frame, st *State, results []Term) *Env {
 	for name, t := range f.named {
 		env.vars[name] = Arg{t: t}
 	}
+	// source-level locals that denote a single SSA value (or a single cell) are visible by their source name
+	for name, d := range g.debugNames(f.fn) {
+		if _, taken := env.vars[name]; taken {
+			continue
+		}
+		if d.addr {
+			if l, ok := f.locs[d.v]; ok {
+				env.vars[name] = Arg{loc: l, t: Term{T: ptrElem(d.v.Type())}}
+			}
+		} else if t, ok := f.vals[d.v]; ok {
+			env.vars[name] = Arg{t: t}
+		}
+	}
 	env.frame = f
 	if f.loopRange != nil {
 		if _, isMap := types.Unalias(f.loopRange.X.Type()).Underlying().(*types.Map); !isMap {
@@ -94,6 +107,14 @@ func (g *Gen) frameEnv(f *Frame, st *State, results []Term) *Env {
 	// loop-carried source variables (of this loop and of the enclosing ones) by their source name
 	for name, phi := range f.loopNames {
 		if t, ok := f.vals[phi]; ok {
+			env.vars[name] = Arg{t: t}
+		}
+	}
+	for name, v := range f.loopVals {
+		if _, isLoopVar := f.loopNames[name]; isLoopVar {
+			continue
+		}
+		if t, ok := f.vals[v]; ok {
 			env.vars[name] = Arg{t: t}
 		}
 	}
@@ -790,6 +811,29 @@ func (env *Env) call(e *ast.CallExpr) Term {
 		k := env.tr(e.Args[0])
 		it := env.frame.vals[rng]
 		return boolT(fmt.Sprintf("(select (select %s %s) %s)", g.get(env.st, vc), it.S, k.S))
+	case "forallint", "existsint":
+		// forallint(k, body): k ranges over all integers (keys of integer-keyed maps)
+		argn(2)
+		{
+			id, ok := e.Args[0].(*ast.Ident)
+			if !ok {
+				cerr("%s: first argument must be an identifier", name)
+			}
+			g.nfresh++
+			bv := fmt.Sprintf("q%d_%s", g.nfresh, id.Name)
+			n := *env
+			n.bound = map[string]Term{}
+			for k, v := range env.bound {
+				n.bound[k] = v
+			}
+			n.bound[id.Name] = Term{bv, "Int", types.Typ[types.Int]}
+			body := n.tr(e.Args[1])
+			q := "forall"
+			if name == "existsint" {
+				q = "exists"
+			}
+			return boolT(fmt.Sprintf("(%s ((%s Int)) %s)", q, bv, body.S))
+		}
 	case "forallstr":
 		// forallstr(k, body): k ranges over all strings
 		argn(2)
@@ -1133,4 +1177,57 @@ func (env *Env) tryResolveType(e ast.Expr) (t types.Type) {
 		}
 	}()
 	return env.resolveType(e)
+}
+
+type dbgName struct {
+	v    ssa.Value
+	addr bool
+}
+
+// debugNames maps the source name of a local variable to the SSA value it denotes, for variables that
+// denote exactly one value (or one cell) in the whole function. Ambiguous names are left out.
+func (g *Gen) debugNames(fn *ssa.Function) map[string]dbgName {
+	if g.dbgCache == nil {
+		g.dbgCache = map[*ssa.Function]map[string]dbgName{}
+	}
+	if m, ok := g.dbgCache[fn]; ok {
+		return m
+	}
+	m := map[string]dbgName{}
+	bad := map[string]bool{}
+	objOf := map[string]types.Object{}
+	for _, b := range fn.Blocks {
+		for _, ins := range b.Instrs {
+			dr, ok := ins.(*ssa.DebugRef)
+			if !ok {
+				continue
+			}
+			id, ok := dr.Expr.(*ast.Ident)
+			if !ok || dr.Object() == nil {
+				continue
+			}
+			if vo, isVar := dr.Object().(*types.Var); !isVar || vo.IsField() || vo.Pkg() == nil || vo.Parent() == vo.Pkg().Scope() {
+				// only function-local variables: package-level names keep their package meaning
+				continue
+			}
+			if _, isConst := dr.X.(*ssa.Const); isConst {
+				bad[id.Name] = true
+				continue
+			}
+			n := id.Name
+			if prev, ok := m[n]; ok {
+				if prev.v != dr.X || prev.addr != dr.IsAddr || objOf[n] != dr.Object() {
+					bad[n] = true
+				}
+				continue
+			}
+			m[n] = dbgName{dr.X, dr.IsAddr}
+			objOf[n] = dr.Object()
+		}
+	}
+	for n := range bad {
+		delete(m, n)
+	}
+	g.dbgCache[fn] = m
+	return m
 }
